@@ -93,13 +93,18 @@ func (ms *Modules) Parse(data, name string) error {
 		return err
 	}
 	for _, s := range ss {
-		n, err := buildASTWithTypeDict(s, ms.typeDict)
+		// Collect the typedefs separately and hand them to ms.typeDict only
+		// once the module has been added: a rejected module must not
+		// leave its typedefs behind.
+		types := newTypeDictionary()
+		n, err := buildASTWithTypeDict(s, types)
 		if err != nil {
 			return err
 		}
 		if err := ms.add(n); err != nil {
 			return err
 		}
+		ms.typeDict.merge(types)
 	}
 	return nil
 }
